@@ -1,0 +1,13 @@
+//go:build verif
+
+// Machine-checked contracts for govc (see /verif/DESIGN.md). Comments only;
+// compiled only with the build tag "verif".
+
+package decision
+
+// C01 (decision service): the accepted status is written only when no pipeline error is recorded;
+// otherwise the pipeline error is returned and nothing is written to the response.
+//@ func (*requestContext).Finalize
+//@   props C01
+//@   ensures old(r.RequestContext.err) != nil ==> ret0 == old(r.RequestContext.err) && wh.n == old(wh.n) && hset.n == old(hset.n) && setcookie.n == old(setcookie.n)
+//@   ensures old(r.RequestContext.err) == nil ==> ret0 == nil && wh.n == old(wh.n) + 1 && wh.arg0[old(wh.n)] == old(r.rw) && wh.arg1[old(wh.n)] == old(r.responseCode)
